@@ -97,6 +97,8 @@ func checkC04(c *Ctx) {
 		c04Table(c, p)
 		c04Lookup(c, p)
 	}
+	// the variable-time multiply is observed through DoubleScalarMultBasepointVartime(u1, s, P), also with the receiver aliasing P
+	c16Double(c, prog)
 	c.R.Explanation = "ScalarMult and scalarMultVartimeGLV are abstractly interpreted with points as elements of a Z/n-module and scalars as elements of Z/n: the split is k2 = c1*(-b1) + c2*(-b2), k1 = s - lambda*k2 with c_i the rounded product proven by the limb-equation engine; sign normalisation pairs scalar and point; the 15-entry table holds (j+1)P; each window lookup adds idx*P (enumerated for idx 0..15); the unrolled ladder result is recognised as sum over the consumed nibbles with weights 16^k, which equals |k_i| exactly when |k_i| < 2^(8*window), and the window read from the analysis (16 bytes) is compared with the bound on |k1|,|k2| derived in exact rational arithmetic from the lattice literals found in the source; lambda, beta, g1, g2 and the basis are verified numerically (lambda^3=1, beta^3=1, lambda*G=(beta*Gx,Gy), det=n, roundings)."
 	c.R.Assumptions = []string{"C01-C03 (field, scalar and group law exact)", "C19 for the assembly lookup in the amd64 configuration", "the map (x,y)->(beta*x,y) is the endomorphism with eigenvalue lambda on the whole group once it holds for the generator (group is cyclic of prime order)"}
 }
